@@ -1637,6 +1637,7 @@ func (x *Exec) concreteLoop(st *State, fr *Frame, lp *Loop, b, pred *ssa.BasicBl
 			}
 			return false
 		case *ssa.If:
+		case *ssa.DebugRef:
 		default:
 			return false
 		}
